@@ -102,6 +102,22 @@ def cases(ctx, tier):
                 if b > 0: out.append(('mpn_get_str %s %x %s' % (hx(b), (v.bit_length() + 63) // 64, hx(v)), 'mpn_get_str-round'))
             v = (rng.getrandbits(100) | 1) * ab ** e + rng.randrange(1, ab ** 3)
             out.append(('mpz_get_str %s %s' % (hx(b), hx(v)), 'get_str-round'))
+    # mpn_set_str through the as-coded model: digit counts around every multiple of chars_per_limb, around the basecase / divide and
+    # conquer / precompute thresholds, high halves that are all zero (below the leading digit), all digits maximal
+    for b in ([3, 7, 10, 10, 36, 62, 2, 16, 32] if quick else list(range(2, 63))):
+        for nd in sorted(set([1, 2, 18, 19, 20, 38, 39, 40, 41, sdc - 1, sdc, sdc + 1, sdc + 20, spre - 1, spre, spre + 1] + ([2 * spre + 3] if b == 10 or not quick else []) + ([] if quick else [rng.randrange(1, 3 * spre)]))):
+            if nd < 1: continue
+            if quick and nd > sdc + 20 and b not in (10, 7): continue
+            for shape in range(4):
+                if quick and nd > sdc + 20 and shape in (1, 2): continue
+                if shape == 0: ds = [rng.randrange(b) for _ in range(nd)]
+                elif shape == 1: ds = [b - 1] * nd
+                elif shape == 2: ds = [1] + [0] * (nd - 1)
+                else:
+                    ds = [rng.randrange(1, b)] + [0] * (nd - 1)
+                    for _ in range(3): ds[rng.randrange(nd)] = rng.randrange(b)
+                if ds[0] == 0: ds[0] = 1
+                out.append(('mpn_set_str %s %s' % (hx(b), hb(bytes(ds))), 'mpn_set_str-as-coded'))
     # round-trip style inputs in every base, with decorations
     for b in bases_in:
         bb = b if b else rng.choice([2, 8, 10, 16])
